@@ -286,7 +286,7 @@ func vcRunC09(t *vcTrial, cfg vc09Cfg) {
 	// that. Where the user's Close won the race instead, OnDisconnect is not promised.
 	peerWon := vcSeenSince(mark, vpOnHupAfterCloseBy, rec.ID)
 	if peerWon && (cfg.NoOnConnect || nConStart == 1) && nDis != 1 {
-		fail("disconnect_missing", "the peer closed a connection whose OnConnect has run (the poller's hang-up closed it; user Close called too: %v) but OnDisconnect ran %d times", atomic.LoadInt32(&userClosed) != 0, nDis)
+		fail("disconnect_missing", "the peer closed a connection whose OnConnect has run (the poller's hang-up closed it; user Close called too: %v) but OnDisconnect ran %d times (lifecycle state now %d, at OnDisconnectLocked %d; 1 = connected, 2 = disconnected)", atomic.LoadInt32(&userClosed) != 0, nDis, vcInner(rec.Conn).getState(), atomic.LoadInt32(&stAtLocked))
 	}
 	if peerWon && atomic.LoadInt32(&userClosed) != 0 {
 		t.Stat("peer_close_then_user_close", 1)
